@@ -5,12 +5,15 @@ import (
 	"bytes"
 	"encoding/json"
 	"fmt"
+	"math/big"
 	"os"
 	"os/exec"
 	"path/filepath"
 	"sort"
 	"strconv"
 	"strings"
+	"unicode/utf16"
+	"unicode/utf8"
 
 	"github.com/formancehq/numscript/internal/analysis"
 	"github.com/formancehq/numscript/verifharness/fw"
@@ -76,6 +79,69 @@ func runProcF(c *fw.Ctx, stdin, stdinFile string, args ...string) (procResult, e
 		return res, err
 	}
 	return res, nil
+}
+
+// respellJSON rewrites the string literals of a JSON text with equivalent escapes: \/ for /,
+// \u00XX for some ASCII characters, \uXXXX (surrogate pairs beyond the BMP) for non-ASCII ones.
+func respellJSON(r *rng.R, js string) string {
+	var b strings.Builder
+	inStr := false
+	for i := 0; i < len(js); {
+		ch := js[i]
+		if !inStr {
+			if ch == '"' {
+				inStr = true
+			}
+			b.WriteByte(ch)
+			i++
+			continue
+		}
+		switch {
+		case ch == '\\':
+			// an escape written by the encoder: kept
+			n := 2
+			if i+1 < len(js) && js[i+1] == 'u' {
+				n = 6
+			}
+			if i+n > len(js) {
+				n = len(js) - i
+			}
+			b.WriteString(js[i : i+n])
+			i += n
+			continue
+		case ch == '"':
+			inStr = false
+			b.WriteByte(ch)
+			i++
+			continue
+		case ch == '/':
+			b.WriteString("\\/")
+			i++
+			continue
+		case ch < 0x80:
+			if r.Chance(1, 10) {
+				fmt.Fprintf(&b, "\\u%04x", ch)
+			} else {
+				b.WriteByte(ch)
+			}
+			i++
+			continue
+		}
+		ru, size := utf8.DecodeRuneInString(js[i:])
+		if ru == utf8.RuneError && size == 1 {
+			b.WriteByte(ch)
+			i++
+			continue
+		}
+		if ru > 0xFFFF {
+			h, l := utf16.EncodeRune(ru)
+			fmt.Fprintf(&b, "\\u%04x\\u%04x", h, l)
+		} else {
+			fmt.Fprintf(&b, "\\u%04X", ru)
+		}
+		i += size
+	}
+	return b.String()
 }
 
 func mustJSON(v any) string {
@@ -240,6 +306,25 @@ func runC20(c *fw.Ctx) {
 		panic(err)
 	}
 	defer os.RemoveAll(dir)
+	// files with a given number of error diagnostics (exit statuses are small integers)
+	for k, ne := range []int{1, 2, 127, 128, 255, 256, 257, 511, 512, 513, 1024, 65536} {
+		id := "errors/" + itoa(ne)
+		if !c.Want(10_000_000+k, id) {
+			continue
+		}
+		if c.Quick && ne > 1024 {
+			continue
+		}
+		var b strings.Builder
+		for j := 0; j < ne; j++ {
+			fmt.Fprintf(&b, "send [USD 1] (source = $undeclared_%d destination = @b)\n", j)
+		}
+		cs := &gen.Case{Script: &gen.Script{}, Vars: map[string]string{}, Balances: map[string]map[string]*big.Int{}, Meta: map[string]map[string]string{}, Flags: map[string]bool{}, Tags: map[string]bool{}}
+		c.Count("files_with_many_errors", 1)
+		if !oneCase(c, c.Rng(id), dir, id, "many-errors", b.String(), cs) {
+			return
+		}
+	}
 	n := c.N(2000, 30000)
 	for i := 0; i < n; i++ {
 		id := "case/" + itoa(i)
@@ -375,10 +460,18 @@ func oneCase(c *fw.Ctx, r *rng.R, dir, id, class, text string, cs *gen.Case) boo
 		flagArgs = append(flagArgs, "--experimental-overdraft-function")
 	}
 	raw := rawInput(text, cs)
+	vjs, mjs := mustJSON(cs.Vars), mustJSON(cs.Meta)
+	if r.Chance(1, 3) {
+		// the same JSON documents as another encoder writes them (\/ for /, \uXXXX escapes and
+		// surrogate pairs instead of the characters)
+		raw, vjs, mjs = respellJSON(r, raw), respellJSON(r, vjs), respellJSON(r, mjs)
+		class += "+json-escapes"
+		c.Count("inputs_with_other_json_escapes", 1)
+	}
 	vf, bf, mf := filepath.Join(dir, "v.json"), filepath.Join(dir, "b.json"), filepath.Join(dir, "m.json")
-	os.WriteFile(vf, []byte(mustJSON(cs.Vars)), 0o644)
+	os.WriteFile(vf, []byte(vjs), 0o644)
 	os.WriteFile(bf, []byte(balancesJSON(cs)), 0o644)
-	os.WriteFile(mf, []byte(mustJSON(cs.Meta)), 0o644)
+	os.WriteFile(mf, []byte(mjs), 0o644)
 	rf := filepath.Join(dir, "raw.json")
 	os.WriteFile(rf, []byte(raw), 0o644)
 	channels := []struct {
